@@ -232,6 +232,16 @@ def corpus_cases(ifaces):
     return []
 
 
+def fresh_cases(tier, rng, ifaces):
+    """thorough tier: trees and every spelling / near-miss of the run's fresh declaration sets"""
+    out = []
+    for name in ifaces:
+        out.append(Case(f'TREE {name}', None, {'kind': 'TREE-fresh'}))
+    for name, iface in ifaces.items():
+        out += header_cases(rng, iface, tier)
+    return out
+
+
 def cases(tier, rng, ifaces):
     out = []
     for name in ifaces:
